@@ -3,6 +3,7 @@
 and writes /verif/seeded/RESULTS.md."""
 import os, json, subprocess, sys
 rows=[]
+BASE={}
 only = sys.argv[1:]
 # the changes are applied to a scratch worktree of /repo's HEAD, so /repo itself stays untouched
 WT='/var/tmp/seed-wt'
@@ -14,13 +15,17 @@ for sid in sorted(os.listdir('/verif/seeded')):
     if only and not any(o in sid for o in only): continue
     meta=json.load(open(f'{d}/meta.json'))
     prop=meta['property']
+    # lean mode (no replay, no slow fallbacks); obligations that fail in lean mode on the unchanged tree do not count
+    if prop not in BASE:
+        rb=subprocess.run(['/verif/bin/hvc','check','-root',WT,'-property',prop,'-noevidence'],capture_output=True,text=True,env=dict(os.environ,HVC_REPLAYDIR='/var/tmp/hvc-seed-replay',HVC_LEAN='1',HVC_NOREPLAY='1'))
+        BASE[prop]={l.split('obligation=')[1].split(' reason=')[0] for l in rb.stdout.splitlines() if l.startswith('VIOLATION') and 'obligation=' in l}
     if subprocess.run(['git','-C',WT,'apply',f'{d}/patch.diff']).returncode != 0:
         rows.append((sid,prop,'PATCH-DOES-NOT-APPLY',False,[],meta['summary'][:110])); print(rows[-1][:4]); continue
     try:
-        r=subprocess.run(['/verif/bin/hvc','check','-root',WT,'-property',prop,'-noevidence'],capture_output=True,text=True,env=dict(os.environ,HVC_REPLAYDIR='/var/tmp/hvc-seed-replay'))
+        r=subprocess.run(['/verif/bin/hvc','check','-root',WT,'-property',prop,'-noevidence'],capture_output=True,text=True,env=dict(os.environ,HVC_REPLAYDIR='/var/tmp/hvc-seed-replay',HVC_LEAN='1',HVC_NOREPLAY='1'))
     finally:
         subprocess.run(['git','-C',WT,'checkout','--','.'],check=True)
-    viol=[l for l in r.stdout.splitlines() if l.startswith('VIOLATION')]
+    viol=[l for l in r.stdout.splitlines() if l.startswith('VIOLATION') and not ('obligation=' in l and l.split('obligation=')[1].split(' reason=')[0] in BASE[prop])]
     obl=sorted({l.split('obligation=')[1].split(' reason=')[0] for l in viol if 'obligation=' in l})
     confirmed=any('no-failing-input-found' not in l for l in viol)
     rows.append((sid,prop,'caught' if viol else 'MISSED',confirmed,obl[:3],meta['summary'][:110]))
